@@ -40,9 +40,22 @@ type StructDataProvider struct {
 	tag   *string
 }
 
+// fieldByName looks up an exported field without panicking on unexported fields or nil embedded pointers
+func (s *StructDataProvider) fieldByName(key string) (reflect.Value, bool) {
+	meta, ok := s.value.Type().FieldByName(key)
+	if !ok || !meta.IsExported() {
+		return reflect.Value{}, false
+	}
+	field, err := s.value.FieldByIndexErr(meta.Index)
+	if err != nil || !field.CanInterface() {
+		return reflect.Value{}, false
+	}
+	return field, true
+}
+
 func (s *StructDataProvider) Get(key string) any {
-	field := s.value.FieldByName(key)
-	if !field.IsValid() {
+	field, ok := s.fieldByName(key)
+	if !ok {
 		return nil
 	}
 	return field.Interface()
@@ -54,8 +67,8 @@ func (s *StructDataProvider) GetByField(field reflect.StructField, fallback stri
 }
 
 func (s *StructDataProvider) GetNestedProvider(key string) DataProvider {
-	field := s.value.FieldByName(key)
-	if !field.IsValid() {
+	field, ok := s.fieldByName(key)
+	if !ok {
 		return nil
 	}
 	dataProvider, _ := TryNewAnyDataProvider(field.Interface())
@@ -145,22 +158,27 @@ func TryNewAnyDataProvider(val any) (DataProvider, error) {
 			return &EmptyDataProvider{Underlying: val}, fmt.Errorf("could not convert map[%s]any to a data provider", keyTyp.String())
 		}
 
-		valTyp := x.Type().Elem()
-
-		switch valTyp.Kind() { // TODO: add more types
-		case reflect.String:
-			return NewSafeMapDataProvider(x.Interface().(map[string]string)), nil
-		case reflect.Int:
-			return NewSafeMapDataProvider(x.Interface().(map[string]int)), nil
-		case reflect.Float64:
-			return NewSafeMapDataProvider(x.Interface().(map[string]float64)), nil
-		case reflect.Bool:
-			return NewSafeMapDataProvider(x.Interface().(map[string]bool)), nil
-		case reflect.Interface:
-			return NewSafeMapDataProvider(x.Interface().(map[string]any)), nil
-		default:
-			return &EmptyDataProvider{Underlying: val}, fmt.Errorf("could not convert map[string]%s to a data provider", valTyp.String())
+		// the exact map types get a typed provider; a type switch (not the element Kind) so that
+		// named map types and maps of named element types do not reach a failing type assertion
+		switch m := val.(type) {
+		case map[string]any:
+			return NewSafeMapDataProvider(m), nil
+		case map[string]string:
+			return NewSafeMapDataProvider(m), nil
+		case map[string]int:
+			return NewSafeMapDataProvider(m), nil
+		case map[string]float64:
+			return NewSafeMapDataProvider(m), nil
+		case map[string]bool:
+			return NewSafeMapDataProvider(m), nil
 		}
+		// any other map with string keys
+		generic := make(map[string]any, x.Len())
+		iter := x.MapRange()
+		for iter.Next() {
+			generic[iter.Key().String()] = iter.Value().Interface()
+		}
+		return NewSafeMapDataProvider(generic), nil
 
 	case reflect.Struct:
 		return &StructDataProvider{value: x, tag: nil}, nil
